@@ -3103,7 +3103,6 @@ fn handle_packet(
             }
             ReceivedPacket::Disconnect(disconnect) => {
 
-                (match disconnect.reason_code().as_result() { Ok(__v) => __v, Err(__e) => return Err(From::from(__e)) });
                 return Err(Error::Disconnected);
             }
         }
@@ -4998,6 +4997,12 @@ fn with_properties(self, properties: &'a [Property<'a>]) -> (r: Self)
         self__m.properties = Some(Properties::from_slice(properties));
         self__m
     }
+fn reason_code(&self) -> (r: ReasonCode)
+    ensures
+        r == (match self.reason_code { Some(c) => c, None => ReasonCode::Success }),
+{
+        self.reason_code.unwrap_or(ReasonCode::Success)
+    }
 fn properties(&self) -> (r: Option<&Properties<'a>>)
     ensures
         r == (match self.properties { Some(p) => Some(&p), None => None }),
@@ -6017,6 +6022,11 @@ fn correlate(self, data: &'a [u8]) -> (r: Self)
     ensures
         r.topic == self.topic && r.payload == self.payload && r.qos == self.qos && r.retain == self.retain
             && (r.properties.inner matches PropertiesData::WithCorrelation { correlation, properties: p } && correlation == Property::CorrelationData(data)),
+        r.properties.inner matches PropertiesData::WithCorrelation { correlation, properties: p } && (match self.properties.inner {
+            PropertiesData::Slice(q) => p == q,
+            PropertiesData::WithCorrelation { correlation: _c, properties: q } => p == q,
+            PropertiesData::Encoded(_) => p@.len() == 0,
+        }),
 { let mut self__m = self;
         self__m.properties = self__m.properties.with_correlation(data);
         self__m
